@@ -12,7 +12,7 @@ ASSUMPTIONS = []
 
 def generate(rng, tier):
     cases = []
-    for _ in range(800 if tier == "quick" else 25000):
+    for _ in range(2500 if tier == "quick" else 25000):
         ek = rng.sample(["k1", "k2", "K1", "a", "b"], rng.randint(1, 3))
         sk = rng.sample(["k1", "s", "a"], rng.randint(1, 2))
         fn = rng.sample(["t", "T", "a", "author", "year"], rng.randint(1, 3))
@@ -92,6 +92,33 @@ def impl(case):
             lib2 = bibtexparser.parse_string(text)
             if SC.block_kinds(lib2) != SC.block_kinds(lib):
                 ok, detail = False, "default parse stack changed the classification: %r -> %r" % (SC.block_kinds(lib), SC.block_kinds(lib2))
+            # ... and every duplicate still points at the first block of ITS class with that key (in-place stack: the very
+            # object held by the library; copy-mode stack: a block of the same class and key)
+            from bibtexparser.middlewares import ResolveStringReferencesMiddleware as RS, RemoveEnclosingMiddleware as RE
+            lib3 = bibtexparser.parse_string(text, parse_stack=[RS(allow_inplace_modification=False),
+                                                                RE(allow_inplace_modification=False)])
+            for name, L, ident in (("default", lib2, True), ("copy-mode", lib3, False)):
+                if not ok:
+                    break
+                if len(L.blocks) != len(bs):
+                    ok, detail = False, "%s parse stack changed the number of blocks" % name
+                    break
+                for i, (b, it) in enumerate(zip(L.blocks, items)):
+                    if type(b).__name__ != "DuplicateBlockKeyBlock":
+                        continue
+                    first = L.blocks[(live_e if it["kind"] == "entry" else live_s)[it["key"]]]
+                    prev = b.previous_block
+                    want_cls = "Entry" if it["kind"] == "entry" else "String"
+                    if type(prev).__name__ != want_cls or prev.key != it["key"] or (ident and prev is not first) \
+                            or type(b.ignore_error_block).__name__ != want_cls:
+                        ok, detail = False, ("after the %s parse stack, duplicate block %d (%s %r) has previous_block %s %r%s" %
+                                             (name, i, it["kind"], it["key"], type(prev).__name__, getattr(prev, "key", None),
+                                              "" if not ident or prev is first else " (not the first block held by the library)"))
+                        break
+            for L in (lib2, lib3):
+                if ok and ({k: type(v).__name__ for k, v in L.entries_dict.items()} != {k: "Entry" for k in live_e} or
+                           {k: type(v).__name__ for k, v in L.strings_dict.items()} != {k: "String" for k in live_s}):
+                    ok, detail = False, "entries_dict / strings_dict after a parse stack do not hold exactly the first blocks"
     rec["oracle"] = {"ok": ok, "detail": detail}
     rec["nontrivial"] = collisions > 0
     rec["key"] = text if len(text) < 300 else str(hash(text))
